@@ -93,11 +93,12 @@ def splitOnce (sep : Char) : Str → Option (Str × Str)
       | none => none
       | some r => some (c :: r.1, r.2)
 
-/-- `version_tokens`: `IDENT`, or `IDENT COLON IDENT` when the version has an epoch -/
+/-- `version_tokens` (after fix 4ba50b0): `IDENT`, or `IDENT (COLON IDENT)*` when the version has an
+    epoch — the pieces of `text.split(':')`, a COLON before every piece but the first -/
 def versionToks (v : Version) : List RNode :=
-  match v.epoch, splitOnce ':' v.display with
-  | some _, some (e, rest) => [.tok .IDENT e, .tok .COLON [':'], .tok .IDENT rest]
-  | _, _ => [.tok .IDENT v.display]
+  match v.epoch with
+  | some _ => sepBy [.tok .COLON [':']] ((Text.splitOn ':' v.display).map fun p => [.tok .IDENT p])
+  | none => [.tok .IDENT v.display]
 
 /-- `version_node` -/
 def versionNode (vc : VC) (v : Version) : RNode :=
